@@ -38,6 +38,15 @@ pub struct ServerCodec {
 
 impl ServerCodec {
     fn decode_packet(&mut self, src: &mut BytesMut) -> Result<Option<InboundIn>, anyhow::Error> {
+        // address, length(2), CRLF, payload: wait until the whole packet has arrived
+        let head = address::try_decode_at(src, 0)? + 2 + trojan::CR_LF.len();
+        if src.remaining() < head {
+            return Ok(None);
+        }
+        let len = u16::from_be_bytes([src[head - 4], src[head - 3]]) as usize;
+        if src.remaining() < head + len {
+            return Ok(None);
+        }
         let peer_addr = address::decode(src)?;
         let len = src.get_u16();
         src.advance(trojan::CR_LF.len());
@@ -56,14 +65,14 @@ impl Decoder for ServerCodec {
         }
         match self.state {
             CodecState::Header => {
-                if src.remaining() < 60 || src.remaining() < 59 + address::try_decode_at(src, 59)? {
+                if src.remaining() < 60 || src.remaining() < 59 + address::try_decode_at(src, 59)? + trojan::CR_LF.len() {
                     return Ok(None);
                 }
                 if src[56] != b'\r' {
                     bail!("not trojan protocol");
                 }
                 let key = src.split_to(56);
-                let key = hex::decode(unsafe { str::from_utf8_unchecked(&key) })?;
+                let key = hex::decode(str::from_utf8(&key)?)?;
                 if self.key != key[..self.key.len()] {
                     bail!("not a valid password")
                 }
